@@ -63,7 +63,9 @@ def loop_task(plan: list[tuple], module_names: list[str] | None, cache_enabled: 
 	plan = [('run',) | ('write', relpath, bytes, mtime_ns)]."""
 	def task(seams: Any) -> dict[str, Any]:
 		from rogw.tranp.bin.transpile import TranspileApp
+		from tranpsim.proc import describe_exception
 		k = 0
+		runs: list[dict[str, Any]] = []
 		for st in plan:
 			if st[0] == 'write':
 				with seams._open(st[1], 'wb') as f:
@@ -72,8 +74,13 @@ def loop_task(plan: list[tuple], module_names: list[str] | None, cache_enabled: 
 			else:
 				seams.event('step', k)
 				k += 1
-				make_app(module_names, True, cache_enabled).run(TranspileApp.run)
-		return {}
+				# a loop survives a failing run (it reports and waits for the next edit), so every run has its own outcome
+				try:
+					make_app(module_names, True, cache_enabled).run(TranspileApp.run)
+					runs.append({'status': 'ok'})
+				except Exception as e:  # noqa: BLE001
+					runs.append({'status': 'error', 'error': describe_exception(e)})
+		return {'runs': runs}
 	return task
 
 
